@@ -63,6 +63,7 @@ class Info(object):
         self.cls = 'generic'  # generic | netcdf | ioapi
         self.disk = False     # variables are netCDF4.Variable objects
         self.coordvals = {}   # dim name -> list of float (1-D var named d)
+        self.masked = []      # names of masked in-memory variables
         self.vglvls = None
         self.coords = ()
 
@@ -154,6 +155,8 @@ def info_of_file(f):
     for k in f.variables.keys():
         v = f.variables[k]
         i.vars[k] = (tuple(v.dimensions), v.dtype.kind)
+        if isinstance(v, np.ma.MaskedArray):
+            i.masked.append(k)
     for d in i.dims:
         if d in i.vars and i.vars[d][0] == (d,) and i.vars[d][1] in 'fiu':
             a = np.ma.filled(np.ma.asarray(f.variables[d][...]).astype('f8'),
@@ -204,6 +207,9 @@ def info_of_spec(fs):
     for v in fs['vars']:
         kind = np.dtype(S.DT[v['dtype']]).kind
         i.vars[v['name']] = (tuple(v['dims']), kind)
+        if (v.get('mask') is not None or v.get('fill') is not None) and \
+                not route.startswith('disk'):
+            i.masked.append(v['name'])
         if v.get('coord') and len(v['dims']) == 1:
             i.coordvals[v['name']] = [float(x) for x in v['data']]
     if route.startswith('disk'):
@@ -537,6 +543,8 @@ def draw_mask(draw, info):
     preds = draw(st.lists(st.sampled_from(
         ['less', 'less_equal', 'greater', 'greater_equal', 'values',
          'equal', 'invalid', 'where']), min_size=1, max_size=3, unique=True))
+    if 'where' not in preds and draw(st.booleans()):
+        preds.append('where')
     scalars = any(vd == () for vd, _ in info.vars.values())
     for p in preds:
         if p == 'invalid':
@@ -545,7 +553,9 @@ def draw_mask(draw, info):
             if not scalars:
                 out[p] = True
         elif p == 'where':
-            vk = draw(st.sampled_from(list(info.vars)))
+            vk = draw(st.sampled_from(
+                [k for k in info.masked if k in info.vars] * 2 +
+                list(info.vars)))
             vd = info.vars[vk][0]
             size = int(np.prod([info.dims[d][0] for d in vd])) if vd else 1
             bits = draw(st.lists(st.booleans(), min_size=size, max_size=size))
